@@ -334,12 +334,25 @@ where
                 for radix in 2..=36u32 {
                     ctx.run(&format!("str_r{}", radix), per_radix, strings(sh, radix).prop_map(move |b| (b, radix)), eval_str::<$T>);
                 }
-                let bad = (strings(sh, 10), any::<u16>(), prop_oneof![Just(0xffu8), Just(0x80u8), Just(0xc0u8), Just(0xfeu8)]).prop_map(|(mut b, at, x)| {
-                    let pos = at as usize % (b.0.len() + 1);
-                    b.0.insert(pos, x);
-                    (b, 10u32)
-                });
-                ctx.run("bad_utf8", ctx.budget(60, FACTOR), bad, eval_bad_utf8::<$T>);
+                // bytes that are not UTF-8, for every radix: a high byte inserted or substituted anywhere, in
+                // particular the high-bit twin (c | 0x80) of a valid digit character, also in very short strings
+                let per_radix_bad = (ctx.budget(350, FACTOR) / 35).max(3);
+                for radix in 2..=36u32 {
+                    let bad = (strings(sh, radix), any::<u16>(), 0u8..4, any::<u8>(), proptest::collection::vec((0u32..radix, 0u8..3), 1..4)).prop_map(move |(mut b, at, mode, hb, short)| {
+                        if mode == 2 {
+                            b.0 = short.iter().enumerate().map(|(i, &(d, m))| digit_char(d as u8, m, i)).collect();
+                        }
+                        let len = b.0.len();
+                        match mode {
+                            0 => b.0.insert(at as usize % (len + 1), hb | 0x80),
+                            3 if len > 0 => b.0[at as usize % len] = hb | 0x80,
+                            _ if len > 0 => b.0[at as usize % len] |= 0x80,
+                            _ => b.0.push(hb | 0x80),
+                        }
+                        (b, radix)
+                    });
+                    ctx.run(&format!("bad_utf8_r{}", radix), per_radix_bad, bad, eval_bad_utf8::<$T>);
+                }
                 let rr = (strings(sh, 10), prop_oneof![Just(0u32), Just(1), Just(37), Just(38), Just(255), Just(256), Just(257), Just(u32::MAX)]);
                 ctx.run("radix_range", ctx.budget(40, FACTOR), rr, eval_radix_range::<$T>);
             }));
@@ -375,7 +388,7 @@ fn main() {
     runner::main(
         Property {
             id: "C10",
-            rule: "Grammar-based strings `sign? zeros{0..k} digits` for every radix 2..=36 in every run (cycled deterministically): digits come from the reference conversion of {0, 1, small, unsigned MAX, signed MAX, |MIN|, 2^W, 2^(W+1) (+-2), r^j +- 1, structured patterns} or are random digit strings of length capacity(r) + {-2..2}, or prefix-structured strings numeral(P) ++ m whole chunks (P a structured binary pattern, so the parser's running value has zero / extreme binary digits at a chunk boundary), optionally preceded by whole chunks of zeros; k up to 2*capacity + 2 redundant leading zeros; lower/upper/mixed case letters; invalid strings = one foreign byte (space, tab, newline, NUL, '_', '.', '+', '-', '/', ':', '@', '[', '`', '{', a digit >= radix, multi-byte UTF-8 incl. a non-ASCII decimal digit) inserted at start / after the sign / middle / end of an otherwise valid string (half of them truncated to 1..5 digits so that the InvalidDigit requirement applies); empty string, lone signs, double signs; invalid UTF-8 for parse_bytes; out-of-range radices {0, 1, 37, 38, 255, 256, 257, u32::MAX}. Digit slices for from_radix_be/le: every radix 2..=256 in every run, built the same way, with excess most-significant zero digits, one digit >= radix injected, empty slice. Oracle: parse_model returns the SET of acceptable outcomes (exact Ok(v); exact PosOverflow/NegOverflow/Empty; InvalidDigit for a lone sign or a foreign byte in a body of L bytes with r^L <= 2^(W-1); any Err for a foreign byte in a longer string); parse_bytes = .ok(); FromStr = radix 10; parse_str_radix on valid input; from_radix_*: Some(v) iff all digits < radix and v < 2^W. The model is compared with the primitives' from_str_radix on a fixed corpus at start-up. NON-TRIVIAL: body length >= capacity - 1, or redundant leading zeros, or a foreign byte present, or value within 6 bits of a bound / unrepresentable. distinct = distinct (profile, job, inputs) by 64-bit hash.",
+            rule: "Grammar-based strings `sign? zeros{0..k} digits` for every radix 2..=36 in every run (cycled deterministically): digits come from the reference conversion of {0, 1, small, unsigned MAX, signed MAX, |MIN|, 2^W, 2^(W+1) (+-2), r^j +- 1, structured patterns} or are random digit strings of length capacity(r) + {-2..2}, or prefix-structured strings numeral(P) ++ m whole chunks (P a structured binary pattern, so the parser's running value has zero / extreme binary digits at a chunk boundary), optionally preceded by whole chunks of zeros; k up to 2*capacity + 2 redundant leading zeros; lower/upper/mixed case letters; invalid strings = one foreign byte (space, tab, newline, NUL, '_', '.', '+', '-', '/', ':', '@', '[', '`', '{', a digit >= radix, multi-byte UTF-8 incl. a non-ASCII decimal digit) inserted at start / after the sign / middle / end of an otherwise valid string (half of them truncated to 1..5 digits so that the InvalidDigit requirement applies); empty string, lone signs, double signs; byte strings that are not UTF-8 for parse_bytes, for every radix (a byte >= 0x80 inserted or substituted anywhere, in particular the high-bit twin c|0x80 of a valid digit character, also in strings of 1-3 digits); out-of-range radices {0, 1, 37, 38, 255, 256, 257, u32::MAX}. Digit slices for from_radix_be/le: every radix 2..=256 in every run, built the same way, with excess most-significant zero digits, one digit >= radix injected, empty slice. Oracle: parse_model returns the SET of acceptable outcomes (exact Ok(v); exact PosOverflow/NegOverflow/Empty; InvalidDigit for a lone sign or a foreign byte in a body of L bytes with r^L <= 2^(W-1); any Err for a foreign byte in a longer string); parse_bytes = .ok(); FromStr = radix 10; parse_str_radix on valid input; from_radix_*: Some(v) iff all digits < radix and v < 2^W. The model is compared with the primitives' from_str_radix on a fixed corpus at start-up. NON-TRIVIAL: body length >= capacity - 1, or redundant leading zeros, or a foreign byte present, or value within 6 bits of a bound / unrepresentable. distinct = distinct (profile, job, inputs) by 64-bit hash.",
             assumptions: &[
                 "digits()/from_digits()/to_bits()/from_bits() are the trusted observation channel",
                 "the error kind for LONG invalid strings is outside the property; parse_str_radix on invalid input is documented to panic and not called",
